@@ -8,7 +8,7 @@ from hypothesis import strategies as st
 
 
 @st.composite
-def mosaic_cases(draw, tier, max_size=900, max_inputs=6):
+def mosaic_cases(draw, tier, max_size=900, max_inputs=6, allow_inf=False):
     W = draw(st.one_of(st.integers(20, max_size), st.sampled_from([255, 256, 257, 300, 512, 513, 600])))
     H = draw(st.one_of(st.integers(20, max_size), st.sampled_from([255, 256, 257, 300, 512, 513, 600])))
     n = draw(st.integers(1, max_inputs))
@@ -42,7 +42,11 @@ def mosaic_cases(draw, tier, max_size=900, max_inputs=6):
             border = draw(st.sampled_from([1, 5, 20]))
         rects.append([x0, y0, w, h, border])
     rot = draw(st.sampled_from([0.0, 0.0, 90.0, -90.0, 180.0, 36.87, 12.5]))
+    inf = []
+    if allow_inf and draw(st.integers(0, 3)) == 0:
+        inf = [[draw(st.floats(0, 1)), draw(st.floats(0, 1)), draw(st.sampled_from([1, 1, -1]))] for _ in range(draw(st.integers(1, 4)))]
     return {
+        "inf": inf,
         "W": W, "H": H, "rects": rects,
         "order": draw(st.permutations(list(range(n)))),
         "bottom_up": draw(st.booleans()),
@@ -116,6 +120,9 @@ def write_inputs(case, d):
 
     W, H = case["W"], case["H"]
     mos = mosaic_array(W, H)
+    for fx, fy, sign in case.get("inf", []):
+        # infinite pixel values are data (only NaN means undefined)
+        mos[int(fy * (H - 1)), int(fx * (W - 1))] = np.inf if sign > 0 else -np.inf
     bx0, by0, bx1, by1 = bbox(case)
     exp = np.full((by1 - by0, bx1 - bx0), np.nan, dtype=np.float32)
     paths = [None] * len(case["rects"])
